@@ -11,6 +11,10 @@ sys.dont_write_bytecode = True
 sys.path.insert(0, os.path.dirname(os.path.abspath(__file__)))
 os.chdir(os.path.dirname(os.path.abspath(__file__)))
 
+if os.environ.get('VERIF_DEBUG_HANG'):
+    import faulthandler
+    faulthandler.dump_traceback_later(int(os.environ['VERIF_DEBUG_HANG']), exit=True)
+
 from vf.runner import main  # noqa: E402
 
 if __name__ == '__main__':
